@@ -15,6 +15,17 @@ CLAIMS = {
          "homomorphism for reduced and unreduced component products; decode∘encode = id on the whole plaintext space (Nat back-ends). "
          "Model tied to code by the C01 stream (exhaustive (sk,m,r) on p≤47 quick / p≤263 thorough).", "6 C01",
          "Ristretto only under the Lawful hypothesis and not yet in the stream."),
+ "C03": ("Flagship theorem shuffle_complete: for EVERY N >= 1, every permutation of range N, all valid generators/key/ciphertexts, every re-encryption tape, "
+         "every proof tape (3N+4... i.e. 4N+4 draws), every label and every hash function, genProof's output is accepted by checkProof (any lawful back-end); "
+         "identity / reversal / N=1 corollaries. The prover model is tied to the code field-by-field with injected tapes (all N! permutations N<=4 on small groups, "
+         "N up to 7 quick / 120 thorough, labels up to 4 KiB, wire round trip of proof, lists, key, generators).", "6 C03",
+         "The verifier is run in-process after a byte round trip, not in a separate OS process (a deterministic verifier cannot tell the difference)."),
+ "C04": ("Theorem check_accepts_iff: checkProof = true IFF all five proof vectors, the output list and the generator list have exactly the right lengths (N>=1) AND the "
+         "textbook Terelius-Wikstrom predicate TW (5 aggregate equations + N chain equations, challenges recomputed from the complete statement) holds in the group; "
+         "corollaries: any wrong length rejected, any single failing equation rejected. Stream: verifier decision vs model on every single-field mutation, all 4^5 / 5^5 vector-length "
+         "combinations, replays against changed statements, adaptively recomputed proofs with omitted chain proofs, malformed statements.", "6 C04",
+         "Computational soundness (no accepted proof for a non-permutation) needs discrete-log hardness and the ROM: outside any theorem; what is proved is the decision procedure. "
+         "Transcript injectivity is in C16."),
  "C05": ("Theorems: completeness of Schnorr, Chaum-Pedersen, plaintext-knowledge and decryption proofs for every secret, nonce, base, "
          "label/context and every hash function, over any lawful back-end; default/explicit generator interchange. Prover compared "
          "nonce-by-nonce with the model (injected tapes), exhaustively over (x, nonce) on small groups.", "6 C05",
@@ -24,6 +35,11 @@ CLAIMS = {
          "decryptions preserved for every permutation, through any cascade of mixers, and through division by any combined (threshold) factor. "
          "Stream: apply_permutation / gen_shuffle with injected exponents vs model, all N! permutations N<=4 on small groups, cascades.", "6 C02",
          "Ristretto only under the Lawful hypothesis and not yet in the stream."),
+ "C06": ("Theorems: each of the four sigma verifiers accepts IFF challenge = hash of the complete statement (bytes layout proved, incl. label and mhr) AND the group equation(s) hold; "
+         "free/changed challenge rejected unconditionally; one-equation CP rejected; changed response / commitment / public value rejected; any statement change changes the hashed bytes "
+         "(injectivity of the transcript encodings) so double acceptance implies a hash collision; special soundness. Stream: the WHOLE proof space of p=7,11 (Schnorr) and p=7 (CP) against "
+         "the reference predicate, adversarial families on 62-bit and 2048-bit groups.", "6 C06",
+         "Collision resistance of SHA-512 is outside any theorem."),
  "C07": ("Theorems: released factor+proof verify (keymaker and threshold form); dividing by (any representative of) the true factor = decryption; "
          "batch verifier = conjunction of the single verifications (iff, with the length-mismatch panic characterised); CP verify iff; special soundness: "
          "a factor accepted for two challenges is the true factor. Stream: factor/proof generation vs model, batches with one invalid pair at every position.", "6 C07",
@@ -38,6 +54,10 @@ CLAIMS = {
          "threshold reconstruction decrypts (incl. end-to-end from dealer coefficient lists), below threshold the shares do not determine the secret. "
          "Stream: lagrange and full reconstructions for all subsets of {1..n}, n<=6, three orders.", "6 C10",
          "Hypotheses: q prime, distinct indices 0 < i < q."),
+ "C16": ("Theorems: every challenge is hashToExp of an explicit byte string; the map encoding is independent of insertion (hash-map iteration) order (bytesLt is a strict total order, "
+         "sorted association list unique); all four transcript encodings are injective in every item (given < 2^32-byte items); counter inputs pairwise distinct below 2^64; the whole 512-bit "
+         "digest enters the reduction (no truncation). Stream: exact hashed bytes, SHA-512 digest and challenge of all four oracles vs the model's own SHA-512.", "6 C16",
+         "Different inputs => different challenges, distinct u_i, entropy: properties of SHA-512, outside any theorem. Fresh-process / thread-count independence is exercised by C19's stream."),
  "C15": ("Theorems: the multiplicative back-ends satisfy the specification `Lawful` for every safe-prime parameter set (natLawful); "
          "group and exponent-ring laws derived generically; exp_sub_mod; kernel-checked facts p=2q+1, 1<g<p, g^q=1, cofactor on the "
          "constants regenerated from /repo. Every trait method compared with the model (= independent bigint reference) exhaustively on small groups.", "6 C15",
